@@ -39,6 +39,8 @@ func (u *Undecided) Error() string { return "undecided: " + u.Reason }
 type deferred struct {
 	call *ast.CallExpr
 	fr   *Frame
+	fv   Value
+	args []Value
 }
 
 type frameState struct {
@@ -400,14 +402,29 @@ func (w *walker) switchStmt(s *ast.SwitchStmt, label string, st *state, k func(*
 					clauses = append(clauses, cc)
 				}
 			}
-			enter := func(st *state, cc *ast.CaseClause) {
+			var enter func(st *state, cc *ast.CaseClause)
+			enter = func(st *state, cc *ast.CaseClause) {
 				st = w.pushCtl(st, ctl{label: label, brk: func(st *state) { k(st) }})
-				for _, b := range cc.Body {
-					if bs, ok := b.(*ast.BranchStmt); ok && bs.Tok == token.FALLTHROUGH {
-						panic(&Undecided{Reason: "fallthrough at " + w.prog.Pos(bs.Pos())})
+				body := cc.Body
+				var next *ast.CaseClause
+				if n := len(body); n > 0 {
+					if bs, ok := body[n-1].(*ast.BranchStmt); ok && bs.Tok == token.FALLTHROUGH {
+						body = body[:n-1]
+						for i, c := range s.Body.List {
+							if c == ast.Stmt(cc) && i+1 < len(s.Body.List) {
+								next = s.Body.List[i+1].(*ast.CaseClause)
+							}
+						}
 					}
 				}
-				w.block(cc.Body, st, func(st *state) { k(w.popCtl(st, depth)) })
+				w.block(body, st, func(st *state) {
+					st = w.popCtl(st, depth)
+					if next != nil {
+						enter(st, next)
+						return
+					}
+					k(st)
+				})
 			}
 			// flatten (clause, expr) pairs in order
 			type ce struct {
@@ -524,11 +541,11 @@ func (w *walker) commRecv(x ast.Expr, st *state, hasDefault bool, k func(*state)
 }
 
 func (w *walker) goStmt(s *ast.GoStmt, st *state, k func(*state)) {
-	w.exprs(s.Call.Args, st, func(st *state, _ []Value) {
+	w.exprs(s.Call.Args, st, func(st *state, args []Value) {
 		fun := unparen(s.Call.Fun)
 		after := func(st *state, fv Value) {
 			st = st.clone()
-			ev := &Event{Kind: KGo, Pos: s.Pos(), Node: s, Call: s.Call, FunVal: fv}
+			ev := &Event{Kind: KGo, Pos: s.Pos(), Node: s, Call: s.Call, FunVal: fv, ArgVals: args}
 			ev.Callee = w.staticCallee(s.Call, st.fr())
 			w.emit(st, ev)
 			k(st)
@@ -542,7 +559,7 @@ func (w *walker) goStmt(s *ast.GoStmt, st *state, k func(*state)) {
 }
 
 func (w *walker) deferStmt(s *ast.DeferStmt, st *state, k func(*state)) {
-	w.exprs(s.Call.Args, st, func(st *state, _ []Value) {
+	w.exprs(s.Call.Args, st, func(st *state, args []Value) {
 		after := func(st *state, fv Value) {
 			st = st.clone()
 			ev := &Event{Kind: KDefer, Pos: s.Pos(), Node: s, Call: s.Call, FunVal: fv}
@@ -551,7 +568,7 @@ func (w *walker) deferStmt(s *ast.DeferStmt, st *state, k func(*state)) {
 			// copy-on-write push onto the frame's defer list
 			frames := append([]*frameState(nil), st.frames...)
 			top := *frames[len(frames)-1]
-			top.defers = append(append([]deferred(nil), top.defers...), deferred{call: s.Call, fr: st.fr()})
+			top.defers = append(append([]deferred(nil), top.defers...), deferred{call: s.Call, fr: st.fr(), fv: fv, args: args})
 			frames[len(frames)-1] = &top
 			st.frames = frames
 			k(st)
@@ -611,10 +628,23 @@ func (w *walker) runDefers(st *state) {
 	st.frames = frames
 	vals, ret := st.lastVals, st.lastReturn
 	st.inDefer++
-	w.call(d.call, st, func(st *state, _ Value) {
+	after := func(st *state, _ Value) {
 		st = st.clone()
 		st.inDefer--
 		st.lastVals, st.lastReturn = vals, ret
 		w.runDefers(st)
-	})
+	}
+	// the function value and the arguments were evaluated when the defer statement ran
+	if d.fv.Kind == VFuncLit {
+		w.inlineLit(d.fv.Lit, d.fv.LitFr, d.call, d.args, nil, st, after)
+		return
+	}
+	if id, ok := unparen(d.call.Fun).(*ast.Ident); ok {
+		if b, ok := d.fr.Info().Uses[id].(*types.Builtin); ok {
+			// deferred builtin (close, panic …): arguments are cheap and side-effect free here
+			w.builtin(b.Name(), d.call, st, after)
+			return
+		}
+	}
+	w.dispatch(d.call, unparen(d.call.Fun), d.fv, d.args, st, after)
 }
